@@ -111,6 +111,24 @@ func umCorpusExtra() []UCase {
 					Causes: []*UDoc{{Msg: "c1", Kind: order[1], Fields: map[string]int{"n": umValueIndex(val[order[1]])}},
 						{Msg: "c2", Kind: order[0], Fields: map[string]int{"n": umValueIndex(val[order[0]])}}}}})
 		}
+		// a composite value that cannot be decoded into the struct type of its key, at the top and in a
+		// cause, with and without a default definition: ErrInternal from the whole call, never a degraded cause
+		for _, withDefault := range []bool{false, true} {
+			c := UCfg{Defs: []UDef{{Kind: "k1", Keys: []int{24}}, {Kind: "kd"}}, Reg: []int{0}, Strict: strict}
+			if withDefault {
+				c.Default = &dflt
+			}
+			out = append(out, UCase{Cfg: c, Doc: &UDoc{Msg: "m", Kind: "k1", Causes: []*UDoc{{Msg: "c", Kind: "k1", Fields: map[string]int{"p": umValueIndex("mapBadP")}}}}},
+				UCase{Cfg: c, Doc: &UDoc{Msg: "m", Kind: "k1", Fields: map[string]int{"p": umValueIndex("mapBadP")}}},
+				UCase{Cfg: c, Doc: &UDoc{Msg: "m", Kind: "k1", Causes: []*UDoc{{Msg: "c", Kind: "k1", Fields: map[string]int{"p": umValueIndex("mapP")}}}}})
+		}
+		// the redaction placeholder, as a string and as the raw bytes a custom decoder may hand over, under
+		// a name owned by a key that would accept it (any, string) and under an unowned name: always
+		// unknown, never typed, exposed once
+		for _, keys := range [][]int{{19}, {0}, nil} {
+			out = append(out, UCase{Cfg: UCfg{Defs: []UDef{{Kind: "k1", Keys: keys}}, Reg: []int{0}, Strict: strict, Custom: []int{19}},
+				Doc: &UDoc{Msg: "m", Kind: "k1", Fields: map[string]int{"any": umValueIndex("redactedBytes"), "s": umValueIndex("redacted"), "zz": umValueIndex("redactedBytes")}}})
+		}
 	}
 	return out
 }
